@@ -1,5 +1,146 @@
 #!/usr/bin/env python3
-"""Translator: regenerates lean/Wayfind/Generated/*.lean from /repo's source text (data only).
-Prints one JSON object {fact: ok|changed|unavailable} on the last line."""
+"""Translator: regenerates lean/Wayfind/Generated/Facts.lean from /repo's source text on every run.
+
+Deliberately dumb: regular expressions over specific items, output is *data only* (lists of byte lists / numbers).
+The theorems over this data live in lean/Wayfind/Theorems/*.lean (`decide`), so an edit to one of these tables breaks
+a proof obligation directly. An item whose shape is no longer recognised is emitted as an empty list and reported as
+"unavailable": the property then rests on the behavioural tie alone.
+Prints one JSON object {fact: ok|unavailable} on the last line.
+"""
 import json
-print(json.dumps({}))
+import os
+import re
+import sys
+
+REPO = "/repo"
+OUT = os.path.join(os.path.dirname(os.path.dirname(os.path.abspath(__file__))), "lean", "Wayfind", "Generated", "Facts.lean")
+
+
+def read(p):
+    try:
+        return open(os.path.join(REPO, p), encoding="utf-8").read()
+    except OSError:
+        return ""
+
+
+def strip_comments(src):
+    src = re.sub(r"//[^\n]*", "", src)
+    return src
+
+
+def bl(s):
+    return "[" + ", ".join(str(b) for b in s.encode()) + "]"
+
+
+def lst(items):
+    return "[" + ", ".join(items) + "]"
+
+
+status = {}
+out = []
+
+# --- C13: built-in constraints: (NAME, implementing type) in source order, and the registration order of Router::new
+src = strip_comments(read("src/constraints.rs"))
+impls = re.findall(r"impl\s+Constraint\s+for\s+(\w+)\s*\{\s*const\s+NAME\s*:\s*&'static\s+str\s*=\s*\"([^\"]*)\"", src)
+checks = re.findall(r"impl\s+Constraint\s+for\s+(\w+)\s*\{.*?fn\s+check\s*\([^)]*\)\s*->\s*bool\s*\{\s*(.*?)\s*\}\s*\}", src, flags=re.S)
+status["builtin_impls"] = "ok" if impls else "unavailable"
+out.append("/-- `impl Constraint for T { const NAME = … }` of src/constraints.rs: (NAME, T) -/")
+out.append("def builtinImpls : List (Bytes × Bytes) := " + lst(f"({bl(n)}, {bl(t)})" for t, n in impls))
+# every built-in check must be `part.parse::<Self>().is_ok()`
+fromstr = [t for t, body in checks if re.sub(r"\s+", "", body) == "part.parse::<Self>().is_ok()"]
+status["builtin_checks"] = "ok" if checks else "unavailable"
+out.append("/-- the types whose `check` is literally `part.parse::<Self>().is_ok()` -/")
+out.append("def builtinFromStr : List Bytes := " + lst(bl(t) for t in fromstr))
+rsrc = strip_comments(read("src/router.rs"))
+m = re.search(r"pub fn new\(\)\s*->\s*Self\s*\{(.*?)\n    \}", rsrc, flags=re.S)
+regs = re.findall(r"router\.constraint::<(\w+)>\(\)", m.group(1)) if m else []
+status["builtin_registrations"] = "ok" if regs else "unavailable"
+out.append("/-- `router.constraint::<T>()` calls of `Router::new`, in order -/")
+out.append("def builtinRegistrations : List Bytes := " + lst(bl(t) for t in regs))
+
+# --- C11: characters that are not allowed in parameter and constraint names
+psrc = strip_comments(read("src/parser.rs"))
+m = re.search(r"const\s+INVALID_PARAM_CHARS\s*:\s*\[u8;\s*\d+\]\s*=\s*\[(.*?)\];", psrc, flags=re.S)
+chars = re.findall(r"b'(\\?.)'", m.group(1)) if m else []
+status["invalid_param_chars"] = "ok" if chars else "unavailable"
+out.append("/-- `INVALID_PARAM_CHARS` of src/parser.rs -/")
+out.append("def invalidParamChars : Bytes := " + lst(str(ord(c[-1])) for c in chars))
+
+# --- C03 / C15: order of the kinds in Node::search and in Display
+ssrc = strip_comments(read("src/node/search.rs"))
+m = re.search(r"pub fn search<.*?\n    \}\n", ssrc, flags=re.S)
+KIND = {"static": 0, "dynamic_constrained": 1, "dynamic": 2, "wildcard_constrained": 3, "wildcard": 4,
+        "end_wildcard_constrained": 5, "end_wildcard": 6}
+order = []
+if m:
+    for name in re.findall(r"self\s*\.\s*search_(\w+?)(?:_segment|_inline)?\s*\(", m.group(0)):
+        k = KIND.get(name)
+        if k is not None and (not order or order[-1] != k):
+            order.append(k)
+status["search_kind_order"] = "ok" if order else "unavailable"
+out.append("/-- kinds in the order `Node::search` tries them (0 = literal … 6 = catch-all) -/")
+out.append("def searchKindOrder : List Nat := " + lst(str(k) for k in order))
+dsrc = strip_comments(read("src/node/display.rs"))
+dorder = [KIND[n] for n in re.findall(r"for\s+child\s+in\s+&node\.(\w+?)_children\b", dsrc) if n in KIND]
+status["display_kind_order"] = "ok" if dorder else "unavailable"
+out.append("/-- kinds in the order `Display` prints the child vectors -/")
+out.append("def displayKindOrder : List Nat := " + lst(str(k) for k in dorder))
+
+# --- C18: no unsafe code, no interior mutability, search takes &self
+cargo = read("Cargo.toml")
+forbid = 1 if re.search(r"unsafe_code\s*=\s*\"forbid\"", cargo) else 0
+toks = 0
+for root, _, files in os.walk(os.path.join(REPO, "src")):
+    for f in files:
+        if f.endswith(".rs") and f != "verif.rs":
+            s = strip_comments(open(os.path.join(root, f), encoding="utf-8").read())
+            toks += len(re.findall(r"\b(Cell|RefCell|OnceCell|Mutex|RwLock|Atomic\w*|UnsafeCell|thread_local|LazyLock|OnceLock)\b|static\s+mut\b|\bRc<", s))
+selfref = 1 if re.search(r"pub fn search<'r, 'p>\(\s*&'r self", rsrc) else 0
+status["interior_mutability"] = "ok"
+out.append("/-- `unsafe_code = \"forbid\"` present in Cargo.toml (1/0) -/")
+out.append(f"def unsafeForbidden : Nat := {forbid}")
+out.append("/-- occurrences of interior-mutability / global-state tokens in src/ (comments stripped, hook module excluded) -/")
+out.append(f"def interiorMutabilityTokens : Nat := {toks}")
+out.append("/-- `Router::search` takes `&self` (1/0) -/")
+out.append(f"def searchTakesSharedRef : Nat := {selfref}")
+
+# --- C17: the OCI example's route table and name pattern
+osrc = strip_comments(read("examples/oci/src/lib.rs"))
+routes = []
+for call in re.findall(r"router\.route\((.*?)\);", osrc, flags=re.S):
+    parts = [p.strip() for p in call.split(",") if p.strip()]
+    if len(parts) >= 3:
+        routes.append((parts[0].replace("Method::", ""), parts[1].strip('"'), parts[2].split("::")[-1]))
+status["oci_routes"] = "ok" if routes else "unavailable"
+out.append("/-- `router.route(Method::M, \"template\", handler)` calls of examples/oci/src/lib.rs: (M, template, handler) -/")
+out.append("def ociRoutes : List (Bytes × Bytes × Bytes) := " + lst(f"({bl(m_)}, {bl(t)}, {bl(h)})" for m_, t, h in routes))
+nsrc = read("examples/oci/src/constraints/name.rs")
+m = re.search(r"Regex::new\(r\"(.*?)\"\)", nsrc, flags=re.S)
+pattern = m.group(1) if m else ""
+status["oci_name_pattern"] = "ok" if pattern else "unavailable"
+out.append("/-- the regular expression literal of examples/oci/src/constraints/name.rs -/")
+out.append("def ociNamePattern : Bytes := " + bl(pattern))
+m = re.search(r"const\s+NAME\s*:\s*&'static\s+str\s*=\s*\"([^\"]*)\"", nsrc)
+out.append("def ociConstraintName : Bytes := " + bl(m.group(1) if m else ""))
+
+# --- C07: panic sites per file: index/slice expressions, unwrap/expect, explicit subtraction
+sites = []
+for rel in ["src/parser.rs", "src/router.rs", "src/node/insert.rs", "src/node/find.rs", "src/node/delete.rs", "src/node/search.rs",
+            "src/node/optimize.rs", "src/node/display.rs", "src/nodes.rs", "src/errors/template.rs"]:
+    s = strip_comments(read(rel))
+    s = s.split("#[cfg(test)]")[0]
+    s = re.sub(r'r?"(\\.|[^"\\])*"', '""', s)
+    idx = len(re.findall(r"[\w\)\]]\[[^\[\]\n]*\]", s))
+    unw = len(re.findall(r"\.(unwrap|expect)\(", s))
+    sub = len(re.findall(r"[\w\)]\s-\s[\w\(]|-=", s))
+    sites.append((rel, idx, unw, sub))
+status["panic_sites"] = "ok" if any(x[1] for x in sites) else "unavailable"
+out.append("/-- per file: (index or slice expressions, unwrap/expect calls, subtractions) outside tests, comments and strings -/")
+out.append("def panicSites : List (Bytes × Nat × Nat × Nat) := " + lst(f"({bl(r)}, {a}, {b}, {c})" for r, a, b, c in sites))
+
+body = "import Wayfind.Model.Basic\n\n/-! GENERATED by tools/extract.py from /repo's source text — do not edit; regenerated on every run. -/\nnamespace Generated\n\n" + "\n".join(out) + "\n\nend Generated\n"
+os.makedirs(os.path.dirname(OUT), exist_ok=True)
+old = open(OUT).read() if os.path.exists(OUT) else None
+if old != body:
+    open(OUT, "w").write(body)
+print(json.dumps(status))
